@@ -338,7 +338,15 @@ def run(ctx):
         else:
             r1.instances += rr.instances
             r1.violations += rr.violations
-    return [r1, r2_recording(ctx, prog), r3_walk(ctx, prog), r4_generators(ctx), r5_default_never_defaults(ctx), r6_single_fallback(ctx, prog)]
+    # the chain is walked per key over the table as configured: the clause of C19.R0 that the configuration loader hands
+    # the `inherits` table on entry for entry (decided by rules/c19.py)
+    from rules import c19
+    from rules.common import borrow
+    k0, _ok, _why = c19.r0_config(ctx)
+    r7 = borrow(k0, "C03.R7", "the configured `inherits` table reaches the merge unchanged",
+                "`walking from the locale itself through its inherits chain ... when the chain ends or loops, the default`: fallback is per key, "
+                "so an entry dropped or rewritten when the configuration is loaded (e.g. cycles resolved once) changes which locale defines a key", only=r"inherits", floor=1)
+    return [r1, r2_recording(ctx, prog), r3_walk(ctx, prog), r4_generators(ctx), r5_default_never_defaults(ctx), r6_single_fallback(ctx, prog), r7]
 
 
 MANIFEST_ENTRY = {
